@@ -133,13 +133,13 @@ impl Profile {
                 }
             }
             "bt" => {
-                // BTree.tla's uniform elements: 179-byte keys, 1-byte values
-                // (leaf element 32 + 179 + 1 = 212 bytes, branch element 24 + 179 = 203 bytes)
+                // BTree.tla's uniform elements: 179-byte keys, 16-byte values (the size of a nested bucket's entry)
+                // (leaf element 32 + 179 + 16 = 227 bytes, branch element 24 + 179 = 203 bytes)
                 for i in 0..nkeys {
                     keys.push(padded(format!("k{:04}", i), 179, b'K'));
                 }
                 for v in 0..nvals {
-                    vals.push(vec![b'0' + (v % 70) as u8]);
+                    vals.push(vec![b'0' + (v % 70) as u8; 16]);
                 }
             }
             _ => panic!("unknown profile {}", name),
